@@ -528,6 +528,19 @@ class AbsBytes:
     def __hash__(self):
         return 0x5c
 
+    def __lt__(self, o):
+        o2 = AbsBytes.lift(o)
+        if o2 is None:
+            return NotImplemented
+        lt = z3.Function("BYTES_LT", BYTES, BYTES, z3.BoolSort())     # lexicographic order, uninterpreted
+        return SymBool(lt(self.t, o2.t))
+
+    def __gt__(self, o):
+        o2 = AbsBytes.lift(o)
+        if o2 is None:
+            return NotImplemented
+        return o2.__lt__(self)
+
     def __getitem__(self, k):
         if not isinstance(k, slice) or k.step not in (None, 1):
             raise Unsupported("indexing an abstract byte string")
